@@ -57,6 +57,8 @@ ArgOf(n) ==
     [] n \in {"dropA_secbits", "dropB_secbits", "dropC_secbits"} -> SecBitsNum(SbDrop)
     [] n = "setgid" -> Traces[t].req.gid
     [] n = "setuid" -> Traces[t].req.uid
+    [] n = "hostname" -> Traces[t].req.hostlen          \* the length handed to sethostname / setdomainname
+    [] n = "domainname" -> Traces[t].req.domlen
     [] OTHER -> 0
 Matches(n, e) == e.n \in EvOf(n) /\ (ArgOf(n) # 0 => e.v = ArgOf(n))
 
